@@ -233,7 +233,16 @@ class Check(PropertyCheck):
                   "the id hyper-h2 reports (identity); which frame belongs to which stream is hyper-h2's demultiplexing "
                   "(trusted, exercised by the peer oracle); the routing by id in HttpLayer.streams is demux_own_stream. Its send "
                   "side uses the same BufferedH2Connection. When a WINDOW_UPDATE arrives in one segment with a GOAWAY hyper-h2 raises inside "
-                  "receive_data; what is then left in the send buffers of the closed connection is not compared.")
+                  "receive_data; what is then left in the send buffers of the closed connection is not compared. "
+                  "LENIENT BRANCHES of the oracle, all of them: (1) the END of a response is required at the client only once "
+                  "the request has ended too (mitmproxy withholds it until then); (2) a complete request may keep waiting only "
+                  "while the server — by its own count against the limit it announced and had acknowledged — has no free slot; "
+                  "(3) the accounting peers let the proxy use a RAISED limit / window as soon as it was sent and bind it to a "
+                  "LOWERED one only after its SETTINGS ACK; (4) expected opening order = order of the last hook before "
+                  "forwarding (requestheaders for streamed requests, request otherwise); (5) after the upstream connection "
+                  "died (close/GOAWAY) responses are not required, only that every stream is answered or failed; (6) cases with "
+                  "a second upstream connection are judged by the oracle but not replayed through the model; (7) a stream reset "
+                  "by either side is exempt from the content clauses.")
     technique = "Lean 4 proof (invariants of a transition system, induction over input histories) + lock-step differential correspondence of the model with the real Http2Client/BufferedH2Connection + peer-decoded property oracle"
     rule = ("layer cases: 2-6 concurrent client streams, each headers/data*/[trailers]/end or reset, interleaved at random, "
             "client and server bytes flushed in 1-4 random segments, server SETTINGS with MAX_CONCURRENT_STREAMS 0-3 and small "
